@@ -70,10 +70,10 @@ OUT = os.path.join(ROOT, "lean", "RsddModel", "Model", "GenVTree.lean")
 VTREE_RS, BTREE_RS, DTREE_RS = "src/repr/vtree.rs", "src/util/btree.rs", "src/repr/dtree.rs"
 
 # Lean types by tag
-LT = {"nat": "Nat", "bool": "Bool", "vtree": "VTree", "dtree": "DTree", "lnat": "List Nat", "lvtree": "List VTree",
+LT = {"order": "Orders.VarOrder", "lldtree": "List (List DTree)", "nat": "Nat", "bool": "Bool", "vtree": "VTree", "dtree": "DTree", "lnat": "List Nat", "lvtree": "List VTree",
       "ldtree": "List DTree", "ovtree": "Option VTree", "mgr": "VTreeManager", "cnf": "Spec.Cnf", "onat": "Option Nat",
       "clause": "Spec.Clause", "lonat": "List (Option Nat)", "lit": "Spec.Lit"}
-ELEM = {"lnat": "nat", "lvtree": "vtree", "ldtree": "dtree", "cnf": "clause", "clause": "lit", "lonat": "onat"}
+ELEM = {"lldtree": "ldtree", "lnat": "nat", "lvtree": "vtree", "ldtree": "dtree", "cnf": "clause", "clause": "lit", "lonat": "onat"}
 
 
 class Fn:
@@ -127,7 +127,8 @@ FUNS = [
     Fn("DTree", "balanced", "balanced", ["ldtree"], "dtree", "VT.DTree.balanced", DTREE_RS, partial=True, rec="fuel",
        fuel="{0}.length", modelF="VT.DTree.balancedAux"),
     Fn("DTree", "cutwidth", "cutwidth", ["dtree"], "nat", "VT.DTree.cutwidth", DTREE_RS, rec="struct"),
-    Fn("DTree", "from_cnf", "fromCnf", ["cnf", "lnat"], "dtree", "VT.DTree.fromCnf", DTREE_RS, partial=True),
+    Fn("DTree", "from_cnf", "fromCnf", ["cnf", "order"], "dtree",
+       "fun (cs : Spec.Cnf) (o : Orders.VarOrder) => VT.DTree.fromCnf cs o.inOrder", DTREE_RS, partial=True),
     Fn("VTree", "from_dtree", "fromDtree", ["dtree"], "ovtree", "fun d => some (VT.VTree.fromDtree d)", VTREE_RS,
        partial=True, rec="struct"),
 ]
@@ -141,6 +142,38 @@ PATH_OWNER = {"VTree": ["VTree", "BTree"], "BTree": ["BTree", "VTree"], "DTree":
 MGR_FIELDS = {"tree": ("tree", "vtree"), "dfs_to_bfs": ("dfsToBfs", "lnat"), "bfs_to_dfs": ("bfsToDfs", "lnat"),
               "vtree_index": ("vtreeIndex", "lnat"), "index_lookup": ("indexLookup", "lvtree")}
 LCA_FIELDS = {"index_map": ("indexMap", "lnat")}
+NEWSTATE = []   # state the model has no counterpart for, met while translating the current function (-> status DIFFERS)
+HELPERS = {}    # (owner, rust name) -> Fn: helper functions that are not in FUNS (nested `fn` items, private associated functions)
+HELPER_DEFS = []  # their generated definitions, emitted in front of the function that uses them
+FILE_OF_OWNER = {}
+
+
+class Differs(Exception):
+    pass
+
+
+def newstate_term(name):
+    return "(newState_%s)" % name
+
+
+def is_newstate(t):
+    return "newState_" in t
+
+
+def rust_ty_tag(text, owner):
+    """Rust type text (tokens joined by blanks) -> type tag of this translator; None if unknown"""
+    t = re.sub(r"\s+", "", text)
+    t = re.sub(r"^&('[a-z]+)?(mut)?", "", t)
+    if t in ("Self",):
+        t = {"VTree": "VTree", "BTree": "VTree", "DTree": "DTree", "VTreeManager": "VTreeManager"}.get(owner, t)
+    table = {"usize": "nat", "VarLabel": "nat", "VTreeIndex": "nat", "u64": "nat", "bool": "bool", "VTree": "vtree",
+             "BTree<N,L>": "vtree", "BTree<(),VarLabel>": "vtree", "DTree": "dtree", "VarSet": "lnat", "Vec<usize>": "lnat",
+             "[usize]": "lnat", "[VarLabel]": "lnat", "Vec<VarLabel>": "lnat", "Vec<VTree>": "lvtree", "[DTree]": "ldtree",
+             "Vec<DTree>": "ldtree", "Vec<Vec<DTree>>": "lldtree", "Option<usize>": "onat", "Option<VTree>": "ovtree",
+             "VarOrder": "order", "Cnf": "cnf", "VTreeManager": "mgr", "Option<VarLabel>": "onat"}
+    return table.get(t)
+
+
 DERIVED = {}    # Rust field of VTreeManager that is not in the model -> model field holding the vector it is a range-minimum table of
 
 
@@ -232,6 +265,17 @@ def tyof(a, cx):
         return "cnf"
     if a[0] == "mcall" and a[2] == "in_order_iter":
         return "lnat"
+    if a[0] == "mcall" and tyof(a[1], cx) == "order" and a[2] in ("num_vars", "get"):
+        return "nat"
+    if a[0] == "mcall" and a[2] in ("filter", "rev", "take", "skip") and tyof(a[1], cx) in ELEM:
+        return tyof(a[1], cx)
+    if a[0] == "mcall" and a[2] in ("min", "max") and not a[3] and tyof(a[1], cx) == "lnat":
+        return "onat"
+    if a[0] == "mcall" and a[2] == "map" and tyof(a[1], cx) == "lnat" and len(a[3]) == 1 and a[3][0][0] == "closure":
+        return "lnat"          # closures over usize collections are usize valued in this code base
+    if a[0] == "call" and a[1][0] == "var" and ("local", a[1][1]) in HELPERS:
+        g = HELPERS[("local", a[1][1])]
+        return g.ret if g.mut is None else None
     if a[0] == "mcall":
         f = resolve_method(a, cx)
         if f is not None:
@@ -239,6 +283,8 @@ def tyof(a, cx):
     if a[0] == "index":
         t = tyof(a[1], cx)
         return ELEM.get(t)
+    if a[0] == "call" and a[1][0] == "path" and a[1][1][-2:] == ["mem", "take"] and len(a[2]) == 1:
+        return tyof(a[2][0], cx)
     if a[0] == "struct" and a[1] in ("Leaf", "Node") and cx.fn.owner == "DTree":
         return "dtree"
     if a[0] == "call" and a[1][0] == "path" and len(a[1][1]) == 2:
@@ -315,12 +361,21 @@ def E(a, cx):
                 return "%s.%s" % (cx.selfname, MGR_FIELDS[a[2]][0])
             if cx.fn.owner == "LeastCommonAncestor" and a[2] in LCA_FIELDS:
                 return "%s.%s" % (cx.selfname, LCA_FIELDS[a[2]][0])
+            if cx.fn.owner in ("VTreeManager", "LeastCommonAncestor") and re.match(r"^[a-z_][a-z0-9_]*$", a[2]):
+                if a[2] in DERIVED:
+                    return "%s.%s" % (cx.selfname, DERIVED[a[2]])
+                # a field the model's manager has no slot for: read the rest, report DIFFERS (new state)
+                if a[2] not in NEWSTATE:
+                    NEWSTATE.append(a[2])
+                return newstate_term(a[2])
         raise Untranslatable("field ." + a[2])
     if k == "index":
         t = tyof(a[1], cx)
         v, i = paren(E(a[1], cx)), paren(E(a[2], cx))
         if t in ("lvtree", "ldtree"):
             return cx.bind("%s[%s]?" % (v, i))
+        if t == "lldtree":
+            return "%s.getD %s []" % (v, i)
         if t == "lonat":
             return "%s.getD %s none" % (v, i)
         if t in ("lnat", None):
@@ -328,7 +383,7 @@ def E(a, cx):
         raise Untranslatable("indexing a " + str(t))
     if k == "bin":
         op = a[1]
-        if op in ("+", "-", "*", "/"):
+        if op in ("+", "-", "*", "/", "%"):
             return "%s %s %s" % (paren(E(a[2], cx)), op, paren(E(a[3], cx)))
         if op in ("<", "<=", ">", ">=", "==", "!="):
             lop = {"<": "<", "<=": "≤", ">": ">", ">=": "≥", "==": "=", "!=": "≠"}[op]
@@ -416,6 +471,9 @@ def E_call(a, cx):
             return E(args[0], cx)
         if p in (["Vec", "new"], ["VecDeque", "new"], ["VarSet", "new"]) and not args:
             return "[]"
+        if p in (["Vec", "with_capacity"], ["VecDeque", "with_capacity"]) and len(args) == 1:
+            E(args[0], cx)
+            return "[]"
         if p == ["HashSet", "from"] and len(args) == 1:
             return E(args[0], cx)
         if p == ["usize", "max"] and len(args) == 2:
@@ -432,12 +490,17 @@ def E_call(a, cx):
             return "Tr.lcaNew %s" % paren(E(args[0], cx))
         if len(p) == 2:
             owner = cx.fn.owner if p[0] == "Self" else p[0]
-            g = lookup_fn(PATH_OWNER.get(owner, [owner]), p[1])
+            g = lookup_fn(PATH_OWNER.get(owner, [owner]), p[1]) or assoc_helper(owner, p[1])
             if g is not None:
                 if g.mut is not None:
                     raise Untranslatable("mutating function %s in value position" % g.rust)
                 return call_fn(g, [E(x, cx) for x in args], cx)
         raise Untranslatable("call of %s" % "::".join(p))
+    if f[0] == "var" and ("local", f[1]) in HELPERS:
+        g = HELPERS[("local", f[1])]
+        if g.mut is not None:
+            raise Untranslatable("mutating function %s in value position" % g.rust)
+        return call_fn(g, [E(x, cx) for x in args], cx)
     raise Untranslatable("call of %r" % (f,))
 
 
@@ -454,13 +517,13 @@ def closure1(cl, cx, elem_ty=None):
         pat = pat[1]
     if pat[0] != "pvar":
         raise Untranslatable("closure pattern")
-    x = pat[1]
+    x = lname(pat[1])
     sub = cx.sub()
     sub.binds = None
     sub.opt_tail = False
-    sub.env[x] = x
+    sub.env[pat[1]] = x
     if elem_ty:
-        sub.ty[x] = elem_ty
+        sub.ty[pat[1]] = elem_ty
     try:
         body = T(cl[2], sub, lambda e, c: V(e, c), force_pure=True)
     except NeedBind:
@@ -470,6 +533,29 @@ def closure1(cl, cx, elem_ty=None):
 
 def E_mcall(a, cx):
     recv, name, args = a[1], a[2], a[3]
+    r0_ = strip_refs(recv)
+    if r0_[0] == "field" and strip_refs(r0_[1]) == ("var", "self") and cx.selfname \
+            and cx.fn.owner in ("VTreeManager", "LeastCommonAncestor") \
+            and r0_[2] not in MGR_FIELDS and r0_[2] not in LCA_FIELDS and r0_[2] not in DERIVED \
+            and r0_[2] not in ("seg_tree", "lca"):
+        # a method of a field the model has no slot for: the arguments are still read
+        t = E(recv, cx)
+        for x in args:
+            E(x, cx)
+        return t
+    if tyof(recv, cx) == "order":
+        o = paren(E(recv, cx))
+        if name == "num_vars" and not args:
+            return "Orders.VarOrder.numVars %s" % o
+        if name == "get" and len(args) == 1:
+            return "Orders.VarOrder.get %s %s" % (o, paren(E(args[0], cx)))
+        if name == "in_order_iter" and not args:
+            return "Orders.VarOrder.inOrder %s" % o
+        if name == "var_at_level" and len(args) == 1:
+            return "Orders.VarOrder.varAtLevel %s %s" % (o, paren(E(args[0], cx)))
+        raise Untranslatable("VarOrder method ." + name)
+    if name == "min" and not args:
+        return "Tr.listMin? %s" % paren(E(recv, cx))
     if name in IDENT_METHODS and not args:
         return E(recv, cx)
     if name in ("len", "count") and not args:
@@ -580,15 +666,19 @@ def E_struct(a, cx):
                 continue
             # a field the model does not have: accepted when it is a range-minimum table over a vector the model stores
             e0 = strip_refs(e)
-            if not (e0[0] == "call" and e0[1][0] == "path" and e0[1][1] == ["SegmentPoint", "build"] and len(e0[2]) == 2
-                    and strip_refs(e0[2][1]) == ("var", "Min")):
-                raise Untranslatable("VTreeManager field %s is not in the model" % f)
             sub = cx.sub()
             sub.binds = None
+            if not (e0[0] == "call" and e0[1][0] == "path" and e0[1][1] == ["SegmentPoint", "build"] and len(e0[2]) == 2
+                    and strip_refs(e0[2][1]) == ("var", "Min")):
+                E(e0, sub)                 # read the initialiser (grammar), the model has no slot for it
+                NEWSTATE.append(f)
+                continue
             t = E(e0[2][0], sub)
             hit = [k for k in ("dfs_to_bfs", "bfs_to_dfs") if paren(canon[k]) == paren(t)]
             if not hit:
-                raise Untranslatable("VTreeManager field %s: table over a vector the model does not store" % f)
+                # a table over a vector the model does not store
+                NEWSTATE.append(f)
+                continue
             DERIVED[f] = MGR_FIELDS[hit[0]][0]
         for f in ("dfs_to_bfs", "bfs_to_dfs", "lca"):
             # a model field the Rust no longer stores keeps the model's content (it is only reachable through DERIVED)
@@ -629,12 +719,12 @@ def lean_pat(p, cx, ty=None, places=None):
     if k == "pwild":
         return "_", None
     if k == "pvar":
-        cx.env[p[1]] = p[1]
+        cx.env[p[1]] = lname(p[1])
         if ty:
             cx.ty[p[1]] = ty
         else:
             cx.ty.pop(p[1], None)
-        return p[1], None
+        return lname(p[1]), None
     if k == "plit":
         if p[1][0] == "num":
             return p[1][1], None
@@ -769,6 +859,9 @@ def assigned_in(stmts, tail=None):
             if e[2] in ("push", "push_back", "insert") and r[0] == "var":
                 add(r[1])
                 return
+            if e[2] in ("push", "push_back") and r[0] == "index" and strip_refs(r[1])[0] == "var":
+                add(strip_refs(r[1])[1])
+                return
             # user methods with &mut self / &mut argument are resolved at translation time; be conservative:
             for f in FUNS:
                 if f.rust == e[2] and f.mut is not None:
@@ -778,12 +871,17 @@ def assigned_in(stmts, tail=None):
                         t = strip_refs(e[3][f.mut - 1])
                         if t[0] == "var":
                             add(t[1])
-        elif e[0] == "call" and e[1][0] == "path":
-            for f in FUNS:
-                if f.rust == e[1][1][-1] and f.mut is not None and len(e[2]) > f.mut:
+        elif e[0] == "call" and e[1][0] in ("path", "var"):
+            nm = e[1][1][-1] if e[1][0] == "path" else e[1][1]
+            for f in list(FUNS) + list(HELPERS.values()):
+                if f.rust == nm and f.mut is not None and len(e[2]) > f.mut:
                     t = strip_refs(e[2][f.mut])
                     if t[0] == "var":
                         add(t[1])
+        elif e[0] == "iflet":
+            walk(e[3][1], e[3][2])
+            if e[4] is not None and e[4][0] == "block":
+                walk(e[4][1], e[4][2])
         elif e[0] == "if":
             walk(e[2][1], e[2][2])
             if e[3] is not None and e[3][0] == "block":
@@ -806,6 +904,14 @@ def assigned_in(stmts, tail=None):
                 expr_effect(s[1])
             elif s[0] == "for":
                 walk(s[3][1], s[3][2])
+            elif s[0] == "let" and s[3] is not None:
+                r = strip_refs(s[3])
+                if r[0] == "call" and r[1][0] == "path" and r[1][1][-2:] == ["mem", "take"] and len(r[2]) == 1:
+                    t = strip_refs(r[2][0])
+                    while t[0] == "index":
+                        t = strip_refs(t[1])
+                    if t[0] == "var":
+                        add(t[1])
         if tl is not None:
             expr_effect(tl)
 
@@ -816,14 +922,19 @@ def assigned_in(stmts, tail=None):
 def is_effect_expr(e, cx):
     """expression used for its effect (unit value)"""
     if e[0] == "mcall":
-        if e[2] in ("push", "push_back", "insert") and strip_refs(e[1])[0] == "var":
+        r = strip_refs(e[1])
+        if e[2] in ("push", "push_back", "insert") and r[0] == "var":
+            return True
+        if e[2] in ("push", "push_back") and r[0] == "index" and strip_refs(r[1])[0] == "var":
             return True
         g = resolve_method(e, cx)
         return g is not None and g.mut is not None
     if e[0] == "call" and e[1][0] == "path" and len(e[1][1]) == 2:
         owner = cx.fn.owner if e[1][1][0] == "Self" else e[1][1][0]
-        g = lookup_fn(PATH_OWNER.get(owner, [owner]), e[1][1][1])
+        g = lookup_fn(PATH_OWNER.get(owner, [owner]), e[1][1][1]) or assoc_helper(owner, e[1][1][1])
         return g is not None and g.mut is not None
+    if e[0] == "call" and e[1][0] == "var" and ("local", e[1][1]) in HELPERS:
+        return HELPERS[("local", e[1][1])].mut is not None
     return False
 
 
@@ -831,7 +942,14 @@ def do_effect(e, cx):
     """perform an effect expression on the symbolic state; returns binds produced"""
     cx.binds = []
     try:
-        if e[0] == "mcall" and e[2] in ("push", "push_back") and len(e[3]) == 1:
+        if e[0] == "mcall" and e[2] in ("push", "push_back") and len(e[3]) == 1 and strip_refs(e[1])[0] == "index":
+            # `v[i].push(x)`: a place inside a vector of vectors
+            r = strip_refs(e[1])
+            root = strip_refs(r[1])[1]
+            i = paren(E(r[2], cx))
+            cur = paren(cx.env[root])
+            cx.env[root] = "(%s.set %s (%s.getD %s [] ++ [%s]))" % (cur, i, cur, i, E(e[3][0], cx))
+        elif e[0] == "mcall" and e[2] in ("push", "push_back") and len(e[3]) == 1:
             root = strip_refs(e[1])[1]
             cx.env[root] = "(%s ++ [%s])" % (paren(cx.env[root]), E(e[3][0], cx))
         elif e[0] == "mcall" and e[2] == "insert" and len(e[3]) == 1:
@@ -841,9 +959,12 @@ def do_effect(e, cx):
             if e[0] == "mcall":
                 g = resolve_method(e, cx)
                 args = [e[1]] + e[3]
+            elif e[1][0] == "var":
+                g = HELPERS[("local", e[1][1])]
+                args = e[2]
             else:
                 owner = cx.fn.owner if e[1][1][0] == "Self" else e[1][1][0]
-                g = lookup_fn(PATH_OWNER.get(owner, [owner]), e[1][1][1])
+                g = lookup_fn(PATH_OWNER.get(owner, [owner]), e[1][1][1]) or assoc_helper(owner, e[1][1][1])
                 args = e[2]
             tgt = strip_refs(args[g.mut])
             if tgt[0] != "var" or tgt[1] not in cx.env:
@@ -998,6 +1119,9 @@ def match_term(e, cx, fin):
 
 
 def seq(stmts, i, tail, cx, fin):
+    if i == len(stmts) and tail is not None and tail[0] in ("iflet", "if") and tail[-1] is None:
+        # a trailing `if` / `if let` without `else` has the unit value: it is a statement
+        return seq(list(stmts) + [("expr", tail)], i, None, cx, fin)
     if i == len(stmts):
         if tail is None:
             return fin(None, cx)
@@ -1005,6 +1129,31 @@ def seq(stmts, i, tail, cx, fin):
     s = stmts[i]
     k = s[0]
     rest = lambda: seq(stmts, i + 1, tail, cx, fin)   # noqa: E731
+    if k == "fnitem":
+        make_helper("local", s[1], s[2], s[3], s[4], cx.fn)
+        return rest()
+    if k == "let" and strip_refs(s[3])[0] == "call" and strip_refs(s[3])[1][0] == "path" \
+            and strip_refs(s[3])[1][1][-2:] == ["mem", "take"] and len(strip_refs(s[3])[2]) == 1 and s[1][0] == "pvar":
+        # `let x = std::mem::take(&mut place);`: x = the old value, the place becomes the default (empty vector)
+        place = strip_refs(strip_refs(s[3])[2][0])
+        cx.binds = []
+        try:
+            old = E(place, cx)
+            ty = tyof(place, cx)
+            if ty not in ("lnat", "lvtree", "ldtree", "lldtree"):
+                raise Untranslatable("mem::take of a value that is not a vector")
+            if place[0] == "var":
+                cx.env[place[1]] = "[]"
+            elif place[0] == "index" and strip_refs(place[1])[0] == "var":
+                root = strip_refs(place[1])[1]
+                cx.env[root] = "(%s.set %s [])" % (paren(cx.env[root]), paren(E(place[2], cx)))
+            else:
+                raise Untranslatable("mem::take place")
+        finally:
+            b, cx.binds = cx.binds, None
+        cx.env[s[1][1]] = paren(old)
+        cx.ty[s[1][1]] = ty
+        return wrapb(cx, b, rest())
     if k == "let":
         pat, rhs = s[1], s[3]
         while pat[0] == "pref":
@@ -1024,6 +1173,8 @@ def seq(stmts, i, tail, cx, fin):
                 if g is not None and g.mut is None:
                     ty = g.ret
             cx.env[pat[1]] = paren(t)
+            if len(s) > 4 and s[4] and rust_ty_tag(s[4], cx.fn.owner):
+                ty = rust_ty_tag(s[4], cx.fn.owner)          # the declared type wins
             if ty:
                 cx.ty[pat[1]] = ty
             else:
@@ -1143,6 +1294,32 @@ def seq(stmts, i, tail, cx, fin):
         if is_effect_expr(e, cx):
             b = do_effect(e, cx)
             return wrapb(cx, b, rest())
+        if e[0] == "iflet" and e[4] is None and not (
+                strip_refs(e[2])[0] == "var" and cx.ty.get(strip_refs(e[2])[1]) == "dtree"
+                and (e[1][1] if e[1][0] == "pref" else e[1])[0] == "pstruct" and e[2][0] == "un"):
+            # `if let PAT = value { effects }`: every local assigned in the block becomes
+            # `match value with | PAT => new | _ => old`
+            sub0 = cx.sub()
+            sub0.binds = None
+            try:
+                scr = E(strip_refs(e[2]), sub0)
+            except NeedBind:
+                raise Untranslatable("partial scrutinee of an if-let statement")
+            sty = tyof(strip_refs(e[2]), cx)
+            sub = cx.sub()
+            sub.opt_tail = False
+            lp, _ = lean_pat(e[1], sub, sty)
+            if lp is None:
+                raise Untranslatable("suffix slice pattern in if-let")
+            muts = [m for m in assigned_in(e[3][1], e[3][2]) if m in cx.env]
+            marker = "\0END"
+            t = seq(e[3][1], 0, e[3][2], sub, lambda te, c2: (c2_capture(c2, sub), marker)[1])
+            if t != marker:
+                raise Untranslatable("if-let statement with binds or control flow")
+            for m in muts:
+                if sub.env.get(m) != cx.env[m]:
+                    cx.env[m] = "(match %s with | %s => %s | _ => %s)" % (scr, lp, sub.env[m], cx.env[m])
+            return rest()
         if e[0] == "iflet" and e[4] is None:
             # `if let Ctor { fields } = &mut local { assignments to the fields }`: the local is rebuilt
             tgt = strip_refs(e[2])
@@ -1192,10 +1369,15 @@ def do_for(s, cx):
     src = it_s[1] if enum else it_s
     cx.binds = []
     try:
-        src_t = E(src, cx)
+        if strip_refs(src)[0] == "bin" and strip_refs(src)[1] == ".." and strip_refs(src)[3] is not None:
+            lo, hi = E(strip_refs(src)[2], cx), E(strip_refs(src)[3], cx)     # `for i in a..b`: the bounds are evaluated once
+            src_t = "List.range' %s (%s - %s)" % (paren(lo), paren(hi), paren(lo))
+            elt = "nat"
+        else:
+            src_t = E(src, cx)
+            elt = ELEM.get(tyof(src, cx))
     finally:
         pre, cx.binds = cx.binds, None
-    elt = ELEM.get(tyof(src, cx))
     sub = cx.sub()
     sub.in_loop = True
     names = ["s%d" % n for n in range(len(muts))]
@@ -1206,12 +1388,14 @@ def do_for(s, cx):
         if pat[0] != "ptuple" or len(pat[1]) != 2 or pat[1][0][0] != "pvar" or pat[1][1][0] != "pvar":
             raise Untranslatable("enumerate pattern")
         iv, xv = pat[1][0][1], pat[1][1][1]
-        sub.env[iv], sub.ty[iv] = iv, "nat"
+        sub.env[iv], sub.ty[iv] = lname(iv), "nat"
     else:
+        if pat[0] == "pwild":
+            pat = ("pvar", cx.fresh("i_"))
         if pat[0] != "pvar":
             raise Untranslatable("for pattern")
         xv = pat[1]
-    sub.env[xv] = xv
+    sub.env[xv] = lname(xv)
     if elt:
         sub.ty[xv] = elt
     else:
@@ -1245,14 +1429,14 @@ def do_for(s, cx):
     if partial:
         if enum:
             raise Untranslatable("partial enumerate loop")
-        loop = "Tr.forInM %s %s (fun %s %s =>\n    %s)" % (paren(src_t), paren(init), st_pat, xv, bt)
+        loop = "Tr.forInM %s %s (fun %s %s =>\n    %s)" % (paren(src_t), paren(init), st_pat, lname(xv), bt)
         v = cx.fresh("st")
         pre.append((v, loop))
         loop = v
     elif enum:
-        loop = "(Tr.forEnum %s %s (fun %s %s %s =>\n    %s))" % (paren(src_t), paren(init), iv, xv, st_pat, bt)
+        loop = "(Tr.forEnum %s %s (fun %s %s %s =>\n    %s))" % (paren(src_t), paren(init), lname(iv), lname(xv), st_pat, bt)
     else:
-        loop = "(Tr.forIn' %s %s (fun %s %s =>\n    %s))" % (paren(src_t), paren(init), st_pat, xv, bt)
+        loop = "(Tr.forIn' %s %s (fun %s %s =>\n    %s))" % (paren(src_t), paren(init), st_pat, lname(xv), bt)
     if len(muts) == 1:
         cx.env[muts[0]] = loop
     else:
@@ -1264,16 +1448,153 @@ def do_for(s, cx):
 
 # ---------------------------------------------------------------- functions
 
+def fn_signature(src, name, impl_hint):
+    """[(param, type text)], return type text (None for unit) of `fn name` (text level)"""
+    from rustmini_vtree import strip_comments, matching, tokenize
+    txt = strip_comments(src)
+    start = 0
+    if impl_hint:
+        m = re.search(impl_hint, txt)
+        if not m:
+            return None
+        start = m.end()
+    m = re.compile(r"\bfn\s+%s\s*(?:<[^>{(]*>)?\s*\(" % re.escape(name)).search(txt, start)
+    if not m:
+        return None
+    p0 = m.end() - 1
+    p1 = matching(txt, p0, "(", ")")
+    b0 = txt.index("{", p1)
+    ret = txt[p1 + 1:b0].strip()
+    ret = ret[2:].strip() if ret.startswith("->") else None
+    if ret and "where" in ret:
+        ret = ret.split("where")[0].strip()
+    params, depth, cur = [], 0, ""
+    for ch in txt[p0 + 1:p1] + ",":
+        if ch in "<([":
+            depth += 1
+        elif ch in ">)]":
+            depth -= 1
+        if ch == "," and depth == 0:
+            if cur.strip():
+                if ":" in cur:
+                    n, t = cur.split(":", 1)
+                    params.append((re.sub(r"^mut\s+", "", n.strip()), t.strip()))
+                else:
+                    params.append(("self", cur.strip()))
+            cur = ""
+        else:
+            cur += ch
+    return params, ret
+
+
+LEAN_RESERVED = {"from", "at", "fun", "then", "do", "end", "open", "show", "have", "with", "in", "local", "using", "where",
+                 "by", "calc", "match", "if", "else", "let", "def", "theorem", "instance", "class", "structure", "namespace",
+                 "section", "variable", "universe", "import", "export", "private", "protected", "mutual", "macro", "syntax",
+                 "deriving", "extends", "for", "return", "try", "catch", "finally", "unless", "mut", "Type", "Prop", "Sort",
+                 "some", "none", "fuel"}
+
+
+def lname(n):
+    """Rust identifier -> Lean binder name (Lean keywords get a trailing underscore)"""
+    return n + "_" if n in LEAN_RESERVED else n
+
+
+def camel(name):
+    parts = name.split("_")
+    return parts[0] + "".join(p.capitalize() for p in parts[1:])
+
+
+def make_helper(owner, name, params, ret_text, ast, parent):
+    """a function that is not in the table FUNS (nested `fn` item, private associated function): its types are read from
+    the signature; translated on first use and emitted in front of the function that uses it"""
+    key = (owner, name)
+    if key in HELPERS:
+        return HELPERS[key]
+    real_owner = parent.owner
+    ptys, mut = [], None
+    for i, (pn, pt) in enumerate(params):
+        if pn == "self":
+            tag = {"VTree": "vtree", "BTree": "vtree", "DTree": "dtree", "VTreeManager": "mgr"}.get(real_owner)
+        else:
+            tag = rust_ty_tag(pt, real_owner)
+        if tag is None:
+            raise Untranslatable("helper %s: parameter type %s" % (name, pt))
+        if re.match(r"^&\s*('[a-z]+\s*)?mut\b", pt.strip()):
+            if mut is not None:
+                raise Untranslatable("helper %s: two &mut parameters" % name)
+            mut = i
+        ptys.append(tag)
+    if ret_text is None:
+        if mut is None:
+            raise Untranslatable("helper %s returns nothing and mutates nothing" % name)
+        ret = ptys[mut]
+    else:
+        if mut is not None:
+            raise Untranslatable("helper %s: value and &mut parameter" % name)
+        ret = rust_ty_tag(ret_text, real_owner)
+        if ret is None:
+            raise Untranslatable("helper %s: return type %s" % (name, ret_text))
+    body_txt = repr(ast)
+    rec = "struct" if re.search(r"'%s'" % re.escape(name), body_txt) else "none"
+    lean = camel(parent.rust) + "_" + camel(name) if owner == "local" else camel(name)
+    last = None
+    for partial in (False, True):
+        g = Fn(real_owner, name, lean, ptys, ret, "default", parent.file, partial=partial, rec=rec, mut=mut)
+        HELPERS[key] = g
+        try:
+            d = translate_ast(g, [pn for pn, _ in params], ast)
+            HELPER_DEFS.append(d)
+            return g
+        except (NeedBind, Untranslatable) as e:
+            last = e
+            del HELPERS[key]
+            if not (isinstance(e, NeedBind) or "total function" in str(e)):
+                break
+    raise Untranslatable("helper %s: %s" % (name, last))
+
+
+def assoc_helper(owner, name):
+    """a private associated function of the same impl block that is not in FUNS"""
+    if (owner, name) in HELPERS:
+        return HELPERS[(owner, name)]
+    cur = CURRENT[0]
+    if cur is None or owner not in IMPLS or owner not in PATH_OWNER.get(cur.owner, [cur.owner]) + [cur.owner]:
+        return None
+    src = CURRENT[1]
+    sig = fn_signature(src, name, IMPLS[owner])
+    if sig is None:
+        return None
+    params, ret = sig
+    _, body = find_fn(src, name, IMPLS[owner])
+    return make_helper(owner, name, params, ret, parse_body(body), cur)
+
+
+CURRENT = [None, None]
+
+
 def translate(f, src):
     ps, body = find_fn(src, f.rust, IMPLS[f.owner])
     params = parse_params(ps)
     if len(params) != len(f.ptys):
         raise Untranslatable("parameter list of %s changed: %r" % (f.rust, params))
     ast = parse_body(body)
+    del NEWSTATE[:]
+    del HELPER_DEFS[:]
+    for k in [k for k in HELPERS if k[0] == "local"]:
+        del HELPERS[k]
+    CURRENT[0], CURRENT[1] = f, src
+    d = translate_ast(f, params, ast)
+    if NEWSTATE:
+        raise Differs("field%s %s of %s (the model's manager has no slot for it)" % (
+            "s" if len(NEWSTATE) > 1 else "", ", ".join("`%s`" % x for x in NEWSTATE), f.owner))
+    return "\n".join(HELPER_DEFS + [d])
+
+
+def translate_ast(f, params, ast):
     lean_names = []
     env, ty = {}, {}
     for p, t in zip(params, f.ptys):
-        ln = {"self": "self_"}.get(p, p)
+        ln = {"self": "self_"}.get(p, lname(p))
         if f.owner in ("VTreeManager", "LeastCommonAncestor") and p == "self":
             ln = "m"
         lean_names.append(ln)
@@ -1307,6 +1628,7 @@ def translate(f, src):
 
     cx.ret_fin = fin
     cx.opt_tail = f.partial and f.mut is None
+    saved_cur = CURRENT[0]
     term = T(ast, cx, fin)
     binder = " ".join("(%s : %s)" % (n, LT[t]) for n, t in zip(lean_names, f.ptys))
     rt = f.lean_ret()
@@ -1329,6 +1651,7 @@ def fallback(f, reason):
 
 
 HEADER = """import RsddModel.Model.VTree
+import RsddModel.Model.Orders
 import RsddModel.Lemmas.TieVTreeAux
 /-!
 # Generated by tools/gen_vtree.py from src/repr/vtree.rs, src/util/btree.rs, src/repr/dtree.rs — do not edit
@@ -1396,7 +1719,7 @@ def guarded_write(keys, blocks, status, fallback_of, footer):
             for lo, hi, k in ranges:
                 if lo <= ln <= hi and k not in bad:
                     bad[k] = msg
-        bad = {k: m for k, m in bad.items() if "UNTRANSLATED" not in status[k]}
+        bad = {k: m for k, m in bad.items() if "UNTRANSLATED" not in status[k] and not status[k].startswith("DIFFERS")}
         if not bad:
             break
         for i, k in enumerate(keys):
@@ -1421,6 +1744,9 @@ def main():
                 raise Untranslatable(str(srcs[f.file]))
             defs.append(translate(f, srcs[f.file]))
             status[f.key] = "translated"
+        except Differs as e:
+            defs.append(fallback(f, "DIFFERS (new state): %s" % e))
+            status[f.key] = "DIFFERS (new state): %s" % e
         except NeedBind:
             defs.append(fallback(f, "partial computation where a value is needed"))
             status[f.key] = "UNTRANSLATED (translator route not available, tied by correspondence only): partial computation where a value is needed"
